@@ -944,6 +944,8 @@ enum TCmd {
     Read { key: String, c: u64, s: u64, n: usize, peek: bool },
     DropHalf { key: String, c: u64, s: u64, h: String },
     DropStream { key: String, c: u64, s: u64 },
+    /// into_split, both halves kept: later calls go through OwnedReadHalf / OwnedWriteHalf
+    Split { key: String },
 }
 
 #[derive(Default)]
@@ -1164,6 +1166,14 @@ async fn tcp_exec(
                 rec::emit(json!({"ev":"drop_half","c":c,"s":s,"h":half}));
                 if r.is_some() || w.is_some() {
                     ends.insert(key, End::Split(r, w));
+                }
+            }
+            TCmd::Split { key } => {
+                if let Some(End::Whole(st)) = ends.remove(&key) {
+                    let (r, w) = st.into_split();
+                    ends.insert(key, End::Split(Some(r), Some(w)));
+                } else if let Some(e) = ends.remove(&key) {
+                    ends.insert(key, e);
                 }
             }
             TCmd::DropStream { key, c, s } => {
@@ -1893,6 +1903,7 @@ fn model_byte(c: u64, s: u64, k: u64) -> u8 {
 
 #[derive(Clone, Default)]
 struct REnd {
+    split: bool, // into_split was called (try_write is gone)
     r: bool,
     w: bool,
     acc: u64, // bytes this end's writes had accepted
@@ -2067,7 +2078,7 @@ fn main_tcp_random(args: &[String]) {
                             let len = if rng.random_bool(0.12) { 0 } else { rng.random_range(1..=4u64) };
                             let data: Vec<u8> = (1..=len).map(|j| model_byte(*c, s, e.acc + j)).collect();
                             // try_write exists on the whole stream only (no half dropped yet)
-                            let via = if e.r && e.w { rng.random_range(0..2) } else { 0 };
+                            let via = if e.r && e.w && !e.split { rng.random_range(0..2) } else { 0 };
                             run.cmd(hh, TCmd::Write { key, c: *c, s, data, via });
                             last_send = st;
                         } else if pick < 62 && e.r {
@@ -2075,6 +2086,11 @@ fn main_tcp_random(args: &[String]) {
                         } else if pick < 70 && e.r {
                             run.cmd(hh, TCmd::Read { key, c: *c, s, n: rng.random_range(0..=3), peek: true });
                         } else if pick < 74 && e.w && (late || rng.random_bool(0.3)) {
+                            // half of the shutdowns go through the owned write half of a split stream
+                            if !e.split && rng.random_bool(0.5) {
+                                run.cmd(hh, TCmd::Split { key: key.clone() });
+                                e.split = true;
+                            }
                             run.cmd(hh, TCmd::Shutdown { key, c: *c, s });
                             last_send = st;
                         } else if pick < 77 && late {
@@ -2186,7 +2202,7 @@ fn random_update(results: &[Value], conns: &mut BTreeMap<u64, RConn>, st: u64, m
                 "pending" => {}
                 "ok" => {
                     k.st = "ok".into();
-                    k.e1 = Some(REnd { r: true, w: true, acc: 0 });
+                    k.e1 = Some(REnd { split: false, r: true, w: true, acc: 0 });
                 }
                 _ => {
                     k.st = "refused".into();
@@ -2199,7 +2215,7 @@ fn random_update(results: &[Value], conns: &mut BTreeMap<u64, RConn>, st: u64, m
             }
             "accept" => {
                 if e["res"].as_str() == Some("ok") {
-                    k.e2 = Some(REnd { r: true, w: true, acc: 0 });
+                    k.e2 = Some(REnd { split: false, r: true, w: true, acc: 0 });
                     k.out_of_queue = true;
                 }
             }
